@@ -53,11 +53,23 @@ def translate(b, family, key, text_in, how):
     except (bridge_mod.BridgeError, bridge_mod.BridgePanic):
         return None
     if how == 'tau-star':
-        expected = str(resp[4])
+        tree, expected = resp[1], str(resp[4])
     elif how == 'mu':
-        expected = str(resp[2])
+        tree, expected = resp[1], str(resp[2])
     else:
-        expected = str(resp[2][2]) if resp[2][0] == 'some' else None
+        tree, expected = (resp[2][1], str(resp[2][2])) if resp[2][0] == 'some' else (None, None)
+    # the solver verdicts are about the tree; what the user gets is its printed text: reading the text back must give the tree
+    if expected is not None:
+        try:
+            back = b.call('parse_theory', Q(expected))[0]
+        except (bridge_mod.BridgeError, bridge_mod.BridgePanic) as e:
+            back = ('unreadable', str(e)[:200])
+        if back != tree:
+            r = dict(base)
+            r.update(verdict='violation-concrete', signature='printed-theory-differs-from-tree',
+                     detail='the printed theory does not read back as the translated tree: %s' % expected[:500],
+                     replay={'request': render(req), 'expected': render(resp)})
+            return r
     args, files = ['translate', '--with', how, 'in.lp'], {'in.lp': text_in}
     rc, out, err, _ = run_cli(args, files=files)
     if expected is None:
